@@ -387,6 +387,7 @@ class Tr:
         self.self_name = fn.args.args[0].arg if (orch and cls is not None and fn.args.args) else None
         self.mutates_self, self.mutates_params = False, set()
         self.inline_depth = 0       # nesting of inlined module-level single-return helpers
+        self.block_helpers = set()
         self.helpers = {s.name: s for s in fn.body if isinstance(s, ast.FunctionDef)}
         # helpers that are to be externals although they could be inlined (string parsing, …): given as
         # (name, position among the nested defs); found by name, or - after a renaming - by position
@@ -416,6 +417,25 @@ class Tr:
                 if len(cands) != 1 or self.module_opaque:
                     raise TranslationError(f"{fn.name}: no nested helper `{name}` / #{k}")
                 self.module_opaque[cands.pop()] = k
+        if orch:
+            # phase 6, round 2: a def inside a block (`elif …: def _permute(x): …`) is a helper, too, but only an INLINABLE
+            # one (never opaque / a closure value); its name must be defined once and not be rebound
+            def nested(stmts):
+                for st in stmts:
+                    if isinstance(st, ast.FunctionDef):
+                        yield st
+                    elif isinstance(st, (ast.If, ast.For, ast.While, ast.With, ast.Try)):
+                        for fld in ("body", "orelse", "finalbody"):
+                            yield from nested(getattr(st, fld, []))
+                        for h in getattr(st, "handlers", []):
+                            yield from nested(h.body)
+            for st in fn.body:
+                if not isinstance(st, ast.FunctionDef):
+                    for d in nested([st]):
+                        if d.name in self.helpers:
+                            raise TranslationError(f"nested def `{d.name}` defined twice")
+                        self.helpers[d.name] = d
+                        self.block_helpers.add(d.name)
         self.fresh = 0
         # every name bound somewhere in the function: parameters (also of nested defs / lambdas), assignment / loop /
         # comprehension targets.  Any other name that is used as a value is a module-level one.
@@ -679,6 +699,8 @@ class Tr:
                 raise TranslationError(f"helper {h.name} is outside the subset and reads the enclosing variable {n.id}")
             if isinstance(n, (ast.Nonlocal, ast.Global, ast.Yield, ast.YieldFrom)):
                 raise TranslationError(f"helper {h.name}: nonlocal / global / yield")
+        if h.name in self.block_helpers:
+            raise TranslationError(f"helper {h.name} (defined inside a block) cannot be inlined")
         k = [s.name for s in self.fn.body if isinstance(s, ast.FunctionDef)].index(h.name)
         return ("ext", f"helper#{k}", [self.expr(a, sub) for a in args])
 
@@ -693,6 +715,8 @@ class Tr:
                 raise TranslationError(f"nested def {h.name} is used as a value and reads the enclosing variable {n.id}")
             if isinstance(n, (ast.Nonlocal, ast.Global, ast.Yield, ast.YieldFrom)):
                 raise TranslationError(f"nested def {h.name}: nonlocal / global / yield")
+        if h.name in self.block_helpers:
+            raise TranslationError(f"nested def {h.name} (defined inside a block) used as a value")
         k = [s.name for s in self.fn.body if isinstance(s, ast.FunctionDef)].index(h.name)
         return ("ext", f"closure#{k}", [])
 
@@ -1030,6 +1054,84 @@ class Tr:
                         continue
                     raise TranslationError(f"`{x}` is mutated and aliased")
 
+    def check_augassign(self, s: ast.AugAssign):
+        """phase 6 (orch): `x op= e` is IN PLACE in Python when `x` holds a mutable object (a list, a numpy array, …) - every
+        alias sees the change -, but `x = x op e` in PyLite (value semantics).  It is accepted only where the two cannot be
+        told apart: `x` is a local (not a parameter, not a loop / comprehension / `with` / `except` target) whose every
+        binding is an int expression (then `op=` rebinds) or a fresh list under the conditions of `append`; `x[i] op= e`
+        only for such a fresh local list whose items are int expressions.  Anything else: TranslationError."""
+        def int_expr(e) -> bool:
+            if isinstance(e, ast.Constant):
+                return type(e.value) in (int, bool)
+            if isinstance(e, ast.UnaryOp) and isinstance(e.op, ast.USub):
+                return int_expr(e.operand)
+            if isinstance(e, ast.BinOp) and type(e.op) in _BINOP:
+                return int_expr(e.left) and int_expr(e.right)
+            return isinstance(e, ast.Call) and isinstance(e.func, ast.Name) and e.func.id in ("len", "int") \
+                and e.func.id not in self.bound
+
+        def bindings(x):
+            """the values `x` is bound to by plain assignments; None if it is (also) bound in another way"""
+            vals = []
+            for n in ast.walk(self.fn):
+                if isinstance(n, (ast.Assign, ast.AnnAssign)) and n.value is not None:
+                    for t in (n.targets if isinstance(n, ast.Assign) else [n.target]):
+                        if isinstance(t, ast.Name) and t.id == x:
+                            vals.append(n.value)
+                        elif isinstance(t, (ast.Tuple, ast.List)) and any(isinstance(u, ast.Name) and u.id == x
+                                                                          for u in ast.walk(t)):
+                            return None
+                elif isinstance(n, (ast.For, ast.comprehension)) and any(
+                        isinstance(u, ast.Name) and u.id == x for u in ast.walk(n.target)):
+                    return None
+                elif isinstance(n, ast.ExceptHandler) and n.name == x:
+                    return None
+                elif isinstance(n, ast.withitem) and n.optional_vars is not None and any(
+                        isinstance(u, ast.Name) and u.id == x for u in ast.walk(n.optional_vars)):
+                    return None
+                elif isinstance(n, ast.NamedExpr) and n.target.id == x:
+                    return None
+            return vals
+
+        tg, what = s.target, f"augmented assignment `{ast.unparse(s.target)} {type(s.op).__name__}= …`"
+        if isinstance(tg, ast.Name):
+            x = tg.id
+            if x in self.params or x not in self.bound:
+                raise TranslationError(f"{what}: `{x}` is not a local variable (in place on a shared object?)")
+            vals = bindings(x)
+            if vals is None or not vals:
+                raise TranslationError(f"{what}: `{x}` is bound by a loop / unpacking / with (in place on a shared object?)")
+            if all(int_expr(v) for v in vals) and int_expr(s.value):
+                return
+            if all(isinstance(v, (ast.List, ast.ListComp)) for v in vals) and isinstance(s.op, (ast.Add, ast.Mult)):
+                self.check_local_list(x)        # `xs += ys` is `extend` on a fresh, unaliased list
+                if x in self.loop_lists:
+                    raise TranslationError(f"{what}: `{x}` is iterated over")
+                return
+            raise TranslationError(f"{what}: `{x}` may hold a shared mutable object (PyLite has value semantics)")
+        if isinstance(tg, ast.Subscript) and isinstance(tg.value, ast.Name):
+            x = tg.value.id
+            vals = bindings(x) if x not in self.params and x in self.bound else None
+            if vals and all(isinstance(v, ast.List) and all(int_expr(i) for i in v.elts) or
+                            isinstance(v, ast.ListComp) and int_expr(v.elt) or
+                            isinstance(v, ast.BinOp) and isinstance(v.op, ast.Mult) and isinstance(v.left, ast.List)
+                            and all(int_expr(i) for i in v.left.elts) for v in vals):
+                ok_lists = all(isinstance(v, (ast.List, ast.ListComp)) for v in vals)
+                if ok_lists:
+                    self.check_local_list(x)
+                    for n in ast.walk(self.fn):      # items stored later must be ints as well
+                        if isinstance(n, ast.Assign) and any(isinstance(t, ast.Subscript) and isinstance(t.value, ast.Name)
+                                                             and t.value.id == x for t in n.targets) and not int_expr(n.value):
+                            break
+                        if isinstance(n, ast.Call) and isinstance(n.func, ast.Attribute) and isinstance(n.func.value, ast.Name) \
+                                and n.func.value.id == x and n.func.attr in ("append", "insert", "extend") \
+                                and not all(int_expr(a) for a in n.args):
+                            break
+                    else:
+                        return
+            raise TranslationError(f"{what}: an item of `{x}` may be a shared mutable object (PyLite has value semantics)")
+        raise TranslationError(f"{what}: in place on an attribute / a computed object")
+
     def stored_after_last_mutation(self, n, x: str) -> bool:
         """`n` (`<target> = x`) is a statement at the top level of the function and no statement after it mentions
         `x.append / remove / extend` or assigns an item of `x`: the shared list is never changed once it is shared"""
@@ -1176,6 +1278,8 @@ class Tr:
         if isinstance(s, ast.AugAssign):
             if type(s.op) not in _BINOP:
                 raise TranslationError(f"unsupported augmented assignment {type(s.op).__name__}")
+            if self.orch:
+                self.check_augassign(s)
             cur = self.expr(s.target)
             return [self.assign(s.target, ("bin", _BINOP[type(s.op)], cur, self.expr(s.value)))]
         if isinstance(s, ast.If):
@@ -1419,7 +1523,14 @@ class Tr:
                 [u.id for u in tg.elts if isinstance(u, ast.Name)] if isinstance(tg, ast.Tuple) else []
             if isinstance(tg, ast.Attribute) and isinstance(tg.value, ast.Name):
                 x = tg.value.id
-                pre, v = self.hoist(s.value)
+                bh = self.block_helper(s.value)
+                if bh and not bh[2]:
+                    # `x.attr = h(…)` for a nested multi-statement helper: inlined through a temporary
+                    t = self.tmp()
+                    self.bound.add(t)
+                    pre, v = self.inline_block(bh[0], bh[1], t), ast.Name(id=t, ctx=ast.Load())
+                else:
+                    pre, v = self.hoist(s.value)
                 if x == self.self_name:
                     self.mutates_self = True
                 elif x in [a.arg for a in self.fn.args.args]:
